@@ -9,6 +9,7 @@ import (
 	"go/types"
 	"regexp"
 	"sort"
+	"strconv"
 	"strings"
 
 	"golang.org/x/tools/go/ssa"
@@ -508,7 +509,7 @@ func checkMemoryLogOwnership(c *Ctx, p *Prog, rule string) {
 				if !ok {
 					continue
 				}
-				if tn, fld, base, ok := fieldOfAddr(st.Addr); ok && tn == "MemoryStore" && fld == "events" {
+				if tn, fld, base, ok := fieldOfAddr(st.Addr); ok && tn == "MemoryStore" && fld == discoverMem(p).Events {
 					n++
 					construct := "memory-store/events-writer/" + FuncDisplay(f)
 					if isFreshObject(base) {
@@ -518,7 +519,7 @@ func checkMemoryLogOwnership(c *Ctx, p *Prog, rule string) {
 					okApp := false
 					if call, ok := stripConv(st.Val).(*ssa.Call); ok {
 						if bi, ok := call.Common().Value.(*ssa.Builtin); ok && bi.Name() == "append" && len(call.Common().Args) == 2 {
-							if tn2, f2, _, ok := fieldLoad(call.Common().Args[0]); ok && tn2 == "MemoryStore" && f2 == "events" {
+							if tn2, f2, _, ok := fieldLoad(call.Common().Args[0]); ok && tn2 == "MemoryStore" && f2 == discoverMem(p).Events {
 								okApp = f.Name() == "Append"
 							}
 						}
@@ -527,7 +528,7 @@ func checkMemoryLogOwnership(c *Ctx, p *Prog, rule string) {
 				}
 				// element stores into the log
 				if ia, ok := st.Addr.(*ssa.IndexAddr); ok {
-					if tn, fld, _, ok := fieldLoad(ia.X); ok && tn == "MemoryStore" && fld == "events" {
+					if tn, fld, _, ok := fieldLoad(ia.X); ok && tn == "MemoryStore" && fld == discoverMem(p).Events {
 						c.Violate(rule, "memory-store/events-element-store/"+FuncDisplay(f), p.Pos(in.Pos()), "an element of the in-memory log is overwritten", nil)
 					}
 				}
@@ -543,44 +544,195 @@ func checkMemoryLogOwnership(c *Ctx, p *Prog, rule string) {
 	c.Floor(rule, "writers of the in-memory log", n, 2)
 }
 
-// checkMemoryPredicate: Read and ReadStream select `from == OffsetOldest || event.Offset > from`.
+// checkMemoryPredicate: every loop over the in-memory log selects exactly the events
+// strictly after the start offset (all of them when the start is OffsetOldest). The
+// selection is decided by evaluating the loop body's branch conditions for the four
+// feasible combinations of (from == "", event.Offset <,=,> from) — whatever polarity,
+// nesting or helper structure the source uses.
 func checkMemoryPredicate(c *Ctx, p *Prog, rule string) {
-	for _, fn := range []*ssa.Function{p.Method(PkgBus, "MemoryStore", "Read"), firstAnon(p.Method(PkgBus, "MemoryStore", "ReadStream"))} {
-		if fn == nil {
-			c.Unresolved(rule, "UNRESOLVED-ANCHOR/MemoryStore.Read/ReadStream", "method not found")
-			continue
-		}
-		gt, oldest := false, false
-		for _, b := range fn.Blocks {
-			for _, in := range b.Instrs {
-				bo, ok := in.(*ssa.BinOp)
-				if !ok {
-					continue
-				}
-				if bo.Op == token.GTR {
-					if tn, fld, _, ok := fieldLoad(bo.X); ok && tn == "StoredEvent" && fld == "Offset" && isFromParam(bo.Y) {
-						gt = true
-					}
-				}
-				if bo.Op == token.LSS {
-					if tn, fld, _, ok := fieldLoad(bo.Y); ok && tn == "StoredEvent" && fld == "Offset" && isFromParam(bo.X) {
-						gt = true
-					}
-				}
-				if bo.Op == token.EQL && isFromParam(bo.X) {
-					if k, ok := bo.Y.(*ssa.Const); ok && k.Value != nil && k.Value.ExactString() == `""` {
-						oldest = true
-					}
-				}
-				if bo.Op == token.GEQ || bo.Op == token.LEQ {
-					if tn, fld, _, ok := fieldLoad(bo.X); ok && tn == "StoredEvent" && fld == "Offset" {
-						c.Violate(rule, "memory-store/"+FuncDisplay(fn)+"/strictly-after", p.Pos(in.Pos()), "events are selected with a non-strict comparison against the start offset: the event at the offset is delivered again", nil)
+	M := discoverMem(p)
+	n := 0
+	for _, fn := range p.FuncsIn(PkgBus) {
+		li := loopsOf(fn)
+		for header, body := range li.body {
+			// a loop indexing the log
+			var elemAddr *ssa.IndexAddr
+			for b := range body {
+				for _, in := range b.Instrs {
+					if ia, ok := in.(*ssa.IndexAddr); ok {
+						if tn, fld, _, ok := fieldLoad(ia.X); ok && tn == "MemoryStore" && fld == M.Events {
+							elemAddr = ia
+						}
 					}
 				}
 			}
+			if elemAddr == nil {
+				continue
+			}
+			// the selecting instruction: append(x, elem) or a yield of elem
+			var sel ssa.Instruction
+			isElem := func(v ssa.Value) bool {
+				ld, ok := stripConv(v).(*ssa.UnOp)
+				return ok && ld.Op == token.MUL && ld.X == ssa.Value(elemAddr)
+			}
+			for b := range body {
+				for _, in := range b.Instrs {
+					switch x := in.(type) {
+					case *ssa.Store:
+						if _, ok := x.Addr.(*ssa.IndexAddr); ok && isElem(x.Val) {
+							sel = in // element placed into a varargs array for append
+						}
+					case *ssa.Call:
+						if isDynamicCall(x.Common()) && len(x.Common().Args) == 2 && isElem(x.Common().Args[0]) {
+							sel = in
+						}
+					}
+				}
+			}
+			if sel == nil {
+				continue
+			}
+			n++
+			name := "memory-store/" + FuncDisplay(fn) + "/read-predicate"
+			type env struct {
+				fromEmpty bool
+				cmp       int // -1 lt, 0 eq, 1 gt  (event.Offset vs from)
+			}
+			fromLike := func(v ssa.Value) bool {
+				v = stripConv(v)
+				if !isNamed(v.Type(), PkgBus, "Offset") {
+					return false
+				}
+				if tn, fld, _, ok := fieldLoad(v); ok && tn == "StoredEvent" && fld == "Offset" {
+					return false
+				}
+				_, isConst := v.(*ssa.Const)
+				return !isConst
+			}
+			elemOffset := func(v ssa.Value) bool {
+				tn, fld, base, ok := fieldLoad(v)
+				return ok && tn == "StoredEvent" && fld == "Offset" && isElem(base)
+			}
+			eval := func(cond ssa.Value, e env) (bool, bool) {
+				cv, pol := condStrip(cond)
+				bo, ok := cv.(*ssa.BinOp)
+				if !ok {
+					return false, false
+				}
+				res, known := false, false
+				isEmpty := func(v ssa.Value) bool {
+					k, ok := v.(*ssa.Const)
+					return ok && k.Value != nil && k.Value.ExactString() == `""`
+				}
+				switch {
+				case (bo.Op == token.EQL || bo.Op == token.NEQ) && ((fromLike(bo.X) && isEmpty(bo.Y)) || (fromLike(bo.Y) && isEmpty(bo.X))):
+					res, known = e.fromEmpty == (bo.Op == token.EQL), true
+				case elemOffset(bo.X) && fromLike(bo.Y):
+					known = true
+					switch bo.Op {
+					case token.GTR:
+						res = e.cmp > 0
+					case token.GEQ:
+						res = e.cmp >= 0
+					case token.LSS:
+						res = e.cmp < 0
+					case token.LEQ:
+						res = e.cmp <= 0
+					case token.EQL:
+						res = e.cmp == 0
+					case token.NEQ:
+						res = e.cmp != 0
+					default:
+						known = false
+					}
+				case fromLike(bo.X) && elemOffset(bo.Y):
+					known = true
+					switch bo.Op {
+					case token.LSS:
+						res = e.cmp > 0
+					case token.LEQ:
+						res = e.cmp >= 0
+					case token.GTR:
+						res = e.cmp < 0
+					case token.GEQ:
+						res = e.cmp <= 0
+					case token.EQL:
+						res = e.cmp == 0
+					case token.NEQ:
+						res = e.cmp != 0
+					default:
+						known = false
+					}
+				}
+				if !pol {
+					res = !res
+				}
+				return res, known
+			}
+			// walk from the block that loads the element
+			selected := func(e env) (bool, bool) {
+				seen := map[*ssa.BasicBlock]bool{}
+				blk := elemAddr.Block()
+				for i := 0; i < 64; i++ {
+					if blk == sel.Block() {
+						return true, true
+					}
+					if seen[blk] || !body[blk] || (blk == header && i > 0) {
+						return false, true
+					}
+					seen[blk] = true
+					switch t := blk.Instrs[len(blk.Instrs)-1].(type) {
+					case *ssa.If:
+						v, known := eval(t.Cond, e)
+						if !known {
+							return false, false
+						}
+						if v {
+							blk = blk.Succs[0]
+						} else {
+							blk = blk.Succs[1]
+						}
+					case *ssa.Jump:
+						blk = blk.Succs[0]
+					default:
+						return false, true
+					}
+				}
+				return false, false
+			}
+			okAll, undecided := true, false
+			var bad []string
+			for _, tc := range []struct {
+				e    env
+				want bool
+				desc string
+			}{
+				{env{true, 1}, true, "from is OffsetOldest"},
+				{env{false, 1}, true, "event after from"},
+				{env{false, 0}, false, "event at from"},
+				{env{false, -1}, false, "event before from"},
+			} {
+				got, decided := selected(tc.e)
+				if !decided {
+					undecided = true
+					continue
+				}
+				if got != tc.want {
+					okAll = false
+					bad = append(bad, fmt.Sprintf("%s: selected=%v want %v", tc.desc, got, tc.want))
+				}
+			}
+			switch {
+			case undecided:
+				c.Unresolved(rule, name, "cannot evaluate the selection condition of this loop over the log")
+			case okAll:
+				c.Discharge(rule, name, p.Pos(sel.Pos()), "selects exactly the events strictly after the start offset (all when it is OffsetOldest)")
+			default:
+				c.Violate(rule, name, p.Pos(sel.Pos()), "this loop over the in-memory log does not select exactly the events strictly after the start offset: "+strings.Join(bad, "; "), nil)
+			}
 		}
-		c.Check(gt && oldest, rule, "memory-store/"+FuncDisplay(fn)+"/read-predicate", p.Pos(fn.Pos()), "selects from == OffsetOldest || event.Offset > from", "the memory store does not select `from == OffsetOldest || event.Offset > from`")
 	}
+	c.Floor(rule, "loops over the in-memory log", n, 2)
 }
 
 func firstAnon(f *ssa.Function) *ssa.Function {
@@ -841,6 +993,7 @@ func (r *txRule) OnExit(e *Engine, st *State, kind ExitKind) {
 
 func checkMigration(c *Ctx, p *Prog, stmts []sqlStmt, rule string) {
 	n := 0
+	txFns := map[*ssa.Function]bool{}
 	for _, f := range p.FuncsIn(PkgSQLite) {
 		if f.Parent() != nil {
 			continue
@@ -859,6 +1012,7 @@ func checkMigration(c *Ctx, p *Prog, stmts []sqlStmt, rule string) {
 			continue
 		}
 		n++
+		txFns[f] = true
 		e := NewEngine(p)
 		// the named result `err` decides the deferred rollback: follow it precisely
 		e.Run(&txRule{}, f, "n")
@@ -906,25 +1060,124 @@ func checkMigration(c *Ctx, p *Prog, stmts []sqlStmt, rule string) {
 		}
 	}
 	c.Floor(rule, "transactional migration functions", n, 1)
-	// the version insert is guarded by the version test: migrate calls migrateV1 under `version < 1`
-	if f := p.Func(PkgSQLite, "migrate"); f != nil {
-		guarded := false
+	// every call of a transactional migration step is dominated by a comparison that bounds
+	// the stored schema version from above (`version < 1`, or the inverted early return
+	// `if version >= 1 { return }`), whatever the functions are called
+	sites := 0
+	for _, f := range p.FuncsIn(PkgSQLite) {
 		for _, b := range f.Blocks {
 			for _, in := range b.Instrs {
-				if call, ok := in.(*ssa.Call); ok {
-					if sc := call.Common().StaticCallee(); sc != nil && PkgOf(sc) == PkgSQLite && strings.HasPrefix(sc.Name(), "migrateV") {
-						cond, onTrue := guardingCond(b)
-						if bo, ok := cond.(*ssa.BinOp); ok && onTrue && bo.Op == token.LSS {
-							guarded = true
-						}
+				call, ok := in.(*ssa.Call)
+				if !ok {
+					continue
+				}
+				sc := call.Common().StaticCallee()
+				if sc == nil || !txFns[sc] {
+					continue
+				}
+				sites++
+				bounded, op, k := versionBoundedAbove(b)
+				if n, ok := insertedVersion(sc); ok && bounded {
+					consistent := (op == token.LSS && k == n) || (op == token.LEQ && k == n-1) || (op == token.EQL && k < n)
+					c.Check(consistent, rule, FuncDisplay(f)+"/call:"+sc.Name()+"/guard-matches-recorded-version", p.Pos(in.Pos()), fmt.Sprintf("the guard (version %s %d) is true exactly while version %d is not recorded", op, k, n), fmt.Sprintf("the guard (version %s %d) does not match the version the step records (%d): the step is re-run on an up-to-date database or skipped on an old one", op, k, n))
+				}
+				c.Check(bounded, rule, FuncDisplay(f)+"/call:"+sc.Name()+"/version-guard", p.Pos(in.Pos()), "a migration step runs only when the stored schema version is lower", "a migration step is not guarded by the stored schema version: reopening re-runs it (the version insert then fails or duplicates)")
+			}
+		}
+	}
+	c.Floor(rule, "call sites of migration steps", sites, 1)
+}
+
+// versionBoundedAbove: some integer comparison with a constant dominates blk through the
+// branch on which the non-constant side is bounded from above (<, <=, == on that branch).
+func versionBoundedAbove(blk *ssa.BasicBlock) (bool, token.Token, int64) {
+	for d := blk.Idom(); d != nil; d = d.Idom() {
+		iff, ok := d.Instrs[len(d.Instrs)-1].(*ssa.If)
+		if !ok {
+			continue
+		}
+		bo, ok := iff.Cond.(*ssa.BinOp)
+		if !ok {
+			continue
+		}
+		op := bo.Op
+		_, lc := bo.X.(*ssa.Const)
+		_, rc := bo.Y.(*ssa.Const)
+		if lc == rc {
+			continue
+		}
+		if bt, ok := bo.X.Type().Underlying().(*types.Basic); !ok || bt.Info()&types.IsInteger == 0 {
+			continue
+		}
+		if lc { // K op x  ==  x flip(op) K
+			switch op {
+			case token.LSS:
+				op = token.GTR
+			case token.LEQ:
+				op = token.GEQ
+			case token.GTR:
+				op = token.LSS
+			case token.GEQ:
+				op = token.LEQ
+			}
+		}
+		for s, succ := range d.Succs {
+			if len(succ.Preds) != 1 || !(succ == blk || succ.Dominates(blk)) {
+				continue
+			}
+			eff := op
+			if s == 1 { // false branch: negate
+				switch op {
+				case token.LSS:
+					eff = token.GEQ
+				case token.LEQ:
+					eff = token.GTR
+				case token.GTR:
+					eff = token.LEQ
+				case token.GEQ:
+					eff = token.LSS
+				case token.EQL:
+					eff = token.NEQ
+				case token.NEQ:
+					eff = token.EQL
+				}
+			}
+			if eff == token.LSS || eff == token.LEQ || eff == token.EQL {
+				var kc *ssa.Const
+				if lc {
+					kc = bo.X.(*ssa.Const)
+				} else {
+					kc = bo.Y.(*ssa.Const)
+				}
+				k, _ := constant.Int64Val(constant.ToInt(kc.Value))
+				return true, eff, k
+			}
+		}
+	}
+	return false, token.ILLEGAL, 0
+}
+
+var insertVersionRe = regexp.MustCompile(`(?is)INSERT\s+(?:OR\s+\w+\s+)?INTO\s+schema_version\b[^;]*?VALUES\s*\(\s*(\d+)`)
+
+// insertedVersion: the schema version a migration step records (literal in its INSERT).
+func insertedVersion(f *ssa.Function) (int64, bool) {
+	var found []int64
+	for _, b := range f.Blocks {
+		for _, in := range b.Instrs {
+			for _, op := range in.Operands(nil) {
+				if k, ok := (*op).(*ssa.Const); ok && k.Value != nil && k.Value.Kind() == constant.String {
+					if m := insertVersionRe.FindStringSubmatch(constant.StringVal(k.Value)); m != nil {
+						n, _ := strconv.ParseInt(m[1], 10, 64)
+						found = append(found, n)
 					}
 				}
 			}
 		}
-		c.Check(guarded, rule, "migrate/version-guard", p.Pos(f.Pos()), "a migration step runs only when the stored schema version is lower", "migration steps are not guarded by the stored schema version: reopening re-runs them (the version insert then fails or duplicates)")
-	} else {
-		c.Unresolved(rule, "UNRESOLVED-ANCHOR/migrate", "function not found")
 	}
+	if len(found) == 1 {
+		return found[0], true
+	}
+	return 0, false
 }
 
 // ---------------------------------------------------------------------------
